@@ -114,6 +114,7 @@ func (c *Conn) Close(code StatusCode, reason string) (err error) {
 	}()
 
 	err = c.closeHandshake(code, reason)
+	verifPoint(c, "Close.handshakeDone")
 
 	err2 := c.close()
 	if err == nil && err2 != nil {
@@ -205,6 +206,7 @@ func (c *Conn) waitCloseHandshake() error {
 		return err
 	}
 	defer c.readMu.unlock()
+	verifPoint(c, "waitCloseHandshake.locked")
 
 	for i := int64(0); i < c.msgReader.payloadLength; i++ {
 		_, err := c.br.ReadByte()
@@ -229,6 +231,7 @@ func (c *Conn) waitCloseHandshake() error {
 }
 
 func (c *Conn) waitGoroutines() error {
+	verifPoint(c, "waitGoroutines")
 	t := time.NewTimer(time.Second * 15)
 	defer t.Stop()
 
